@@ -99,6 +99,7 @@ rt3_ack!(rt3_pubcomp, PublishComplete, 0x70);
 rt3_ack!(rt3_unsuback, UnsubscribeAck, 0xB0);
 
 vharness! {
+    //@ twin_replay: yes
     //@ props: C01
     //@ tier: quick
     //@ expect: fail
@@ -505,6 +506,7 @@ vharness! {
 }
 
 vharness! {
+    //@ twin_replay: yes
     //@ props: C19
     //@ tier: quick
     //@ expect: fail
@@ -853,13 +855,86 @@ macro_rules! bd3_connect {
     };
 }
 //@ props: C02 C19
-//@ tier: quick
+//@ tier: thorough
 //@ functions: v3 decode::decode_packet, decode_connect_packet, ConnectFlags::from_bits, QoS::try_from
 //@ bounds: every body of 0..=12 arbitrary bytes (the shortest accepted CONNECT has 12..13 bytes; will / username / password need 16: thorough tier)
 //@ unwindset: utf8_is_valid=8 spec_utf8=8 slice_eq=8 expect_lp=8
 //@ mem: 20  timeout: 900
 //@ desc: v3 CONNECT body: wrong protocol name or level, reserved flag bit, truncated or over-long inner fields, invalid UTF-8 and an empty client id without clean session are errors; accepted otherwise; stable
 bd3_connect!(bd3_connect_12, 12);
+
+vharness! {
+    //@ props: C02 C19
+    //@ tier: quick
+    //@ functions: v3 decode::decode_packet, decode_connect_packet (protocol name / level part)
+    //@ bounds: CONNECT body = 7 ARBITRARY bytes (name length, name, level) followed by a minimal legal tail (clean session, keep-alive 0, one-byte client id)
+    //@ unwindset: utf8_is_valid=8 slice_eq=8
+    //@ desc: v3 CONNECT is accepted iff the protocol name is exactly 00 04 'MQTT' and the level is 4; a wrong name or level is an error, never a panic
+    fn bd3_connect_head() unwind(10) {
+        let head: [u8; 7] = vk::any_bytes::<7>();
+        let mut data = [0u8; 13];
+        let mut i = 0;
+        while i < 7 { data[i] = head[i]; i += 1; }
+        data[7] = 0x02;
+        data[10] = 0;
+        data[11] = 1;
+        data[12] = b'a';
+        let r = decode::decode_packet(vk::bytes_of(data, 13), 0x10);
+        let good = head[0] == 0 && head[1] == 4 && head[2] == b'M' && head[3] == b'Q' && head[4] == b'T' && head[5] == b'T' && head[6] == 4;
+        assert!(r.is_ok() == good, "CONNECT acceptance differs from: protocol name MQTT, level 4");
+        vcover!(r.is_ok(), "accepted");
+        vcover!(r == Err(crate::error::DecodeError::UnsupportedProtocolLevel), "level refused");
+    }
+}
+
+vharness! {
+    //@ props: C02 C19
+    //@ tier: quick
+    //@ functions: v3 decode::decode_packet, decode_connect_packet (flags, keep-alive, client id), ConnectFlags::from_bits
+    //@ bounds: CONNECT body = the legal head 00 04 'MQTT' 04 followed by 0..=6 ARBITRARY bytes (flags, keep-alive, client-id length and up to one client-id byte)
+    //@ unwindset: utf8_is_valid=8 spec_utf8=8 slice_eq=8 expect_lp=8
+    //@ desc: v3 CONNECT fixed part behind a legal head: reserved flag bit, truncated fields, over-long client-id length, invalid UTF-8, empty client id without clean session, and flags announcing will / user name / password that do not follow are errors; accepted otherwise; never a panic
+    fn bd3_connect_tail() unwind(10) {
+        let tail: [u8; 6] = vk::any_bytes::<6>();
+        let tl = vk::any_len(6);
+        let mut data = [0u8; 13];
+        data[1] = 4; data[2] = b'M'; data[3] = b'Q'; data[4] = b'T'; data[5] = b'T'; data[6] = 4;
+        let mut i = 0;
+        while i < 6 { data[7 + i] = tail[i]; i += 1; }
+        let len = 7 + tl;
+        let r = decode::decode_packet(vk::bytes_of(data, len), 0x10);
+        let d = &data[..len];
+        let mut want_ok = len >= 10 && d[7] & 1 == 0;
+        if want_ok {
+            let flags = d[7];
+            let mut pos = 10;
+            match spec_lp(d, &mut pos) {
+                Some((a, b)) => {
+                    if !spec_utf8(&d[a..b]) || (a == b && flags & 0x02 == 0) {
+                        want_ok = false;
+                    }
+                }
+                None => want_ok = false,
+            }
+            // will / user name / password announced by the flags must follow: with at most 13 bytes they cannot all fit
+            if want_ok && flags & 0x04 != 0 {
+                if spec_lp(d, &mut pos).is_none() || spec_lp(d, &mut pos).is_none() || (flags >> 3) & 3 == 3 {
+                    want_ok = false;
+                }
+            }
+            if want_ok && flags & 0x80 != 0 && spec_lp(d, &mut pos).is_none() {
+                want_ok = false;
+            }
+            if want_ok && flags & 0x40 != 0 && spec_lp(d, &mut pos).is_none() {
+                want_ok = false;
+            }
+        }
+        assert!(r.is_ok() == want_ok);
+        vcover!(r.is_ok(), "accepted");
+        vcover!(r == Err(crate::error::DecodeError::ConnectReservedFlagSet), "reserved flag rejected");
+        vcover!(r == Err(crate::error::DecodeError::InvalidClientId), "empty client id without clean session rejected");
+    }
+}
 //@ props: C02 C19
 //@ tier: thorough
 //@ functions: v3 decode::decode_packet, decode_connect_packet, ConnectFlags::from_bits, QoS::try_from
